@@ -718,13 +718,16 @@ def _read_set(ctx: ReaderContext) -> lset.PersistentSet:
     assert start == "{"
 
     def set_if_valid(s: Collection) -> lset.PersistentSet:
-        coll_set = set(s)
-        if len(s) != len(coll_set):
-            dupes = ", ".join(
-                lrepr(k) for k, v in collections.Counter(s).items() if v > 1
-            )
-            raise ctx.syntax_error(f"Duplicated values in set: {dupes}")
-        return lset.set(s)
+        try:
+            coll_set = set(s)
+            if len(s) != len(coll_set):
+                dupes = ", ".join(
+                    lrepr(k) for k, v in collections.Counter(s).items() if v > 1
+                )
+                raise ctx.syntax_error(f"Duplicated values in set: {dupes}")
+            return lset.set(s)
+        except TypeError as e:
+            raise ctx.syntax_error("Set members must be hashable") from e
 
     return _read_coll(ctx, set_if_valid, "}", "set")
 
@@ -880,55 +883,61 @@ def _read_num(  # pylint: disable=too-many-locals,too-many-statements
     s = "".join(chars)
     neg = s.startswith("-")
 
-    if (match := integer_literal.fullmatch(s)) is not None:
-        return int(match.group(1))
-    elif (match := float_literal.fullmatch(s)) is not None:
-        if s.endswith("M"):
-            try:
-                return decimal.Decimal(match.group(1))
-            except decimal.InvalidOperation:  # pragma: no cover
-                raise ctx.syntax_error(f"Invalid number format: {s}") from None
-        else:
-            return float(match.group(1))
-    elif (match := octal_literal.fullmatch(s)) is not None:
-        v = int(match.group(1), base=8)
-        return -v if neg else v
-    elif (match := hex_literal.fullmatch(s)) is not None:
-        v = int(match.group(1), base=16)
-        return -v if neg else v
-    elif (match := ratio_literal.fullmatch(s)) is not None:
-        num, denominator = match.groups()
-        if (numerator := int(num)) == 0:
-            return 0
-        try:
-            frac = Fraction(numerator=numerator, denominator=int(denominator))
-        except ZeroDivisionError as e:
-            raise ctx.syntax_error(f"Invalid ratio format: {s}") from e
-        else:
-            if frac.denominator == 1:
-                return frac.numerator
-            return frac
-    elif (match := scientific_notation_literal.fullmatch(s)) is not None:
-        if s.endswith("M"):
-            return decimal.Decimal(s[:-1])
-        else:
-            return float(s)
-    elif (match := arbitrary_base_literal.fullmatch(s)) is not None:
-        base = int(match.group(1))
-        if not 2 <= base <= 36:
-            raise ctx.syntax_error(
-                f"Invalid base {base} for integer literal {s}: must be between 2 and 36"
-            )
-        try:
-            v = int(match.group(2), base=base)
-        except ValueError as e:
-            raise ctx.syntax_error(f"Invalid number format: {s}") from e
-        else:
+    try:
+        if (match := integer_literal.fullmatch(s)) is not None:
+            return int(match.group(1))
+        elif (match := float_literal.fullmatch(s)) is not None:
+            if s.endswith("M"):
+                try:
+                    return decimal.Decimal(match.group(1))
+                except decimal.InvalidOperation:  # pragma: no cover
+                    raise ctx.syntax_error(f"Invalid number format: {s}") from None
+            else:
+                return float(match.group(1))
+        elif (match := octal_literal.fullmatch(s)) is not None:
+            v = int(match.group(1), base=8)
             return -v if neg else v
-    elif (match := complex_literal.fullmatch(s)) is not None:
-        imaginary_raw = match.group(1)
-        imaginary = float(imaginary_raw) if "." in imaginary_raw else int(imaginary_raw)
-        return complex(0, -imaginary if neg else imaginary)
+        elif (match := hex_literal.fullmatch(s)) is not None:
+            v = int(match.group(1), base=16)
+            return -v if neg else v
+        elif (match := ratio_literal.fullmatch(s)) is not None:
+            num, denominator = match.groups()
+            if (numerator := int(num)) == 0:
+                return 0
+            try:
+                frac = Fraction(numerator=numerator, denominator=int(denominator))
+            except ZeroDivisionError as e:
+                raise ctx.syntax_error(f"Invalid ratio format: {s}") from e
+            else:
+                if frac.denominator == 1:
+                    return frac.numerator
+                return frac
+        elif (match := scientific_notation_literal.fullmatch(s)) is not None:
+            if s.endswith("M"):
+                return decimal.Decimal(s[:-1])
+            else:
+                return float(s)
+        elif (match := arbitrary_base_literal.fullmatch(s)) is not None:
+            base = int(match.group(1))
+            if not 2 <= base <= 36:
+                raise ctx.syntax_error(
+                    f"Invalid base {base} for integer literal {s}: must be between 2 and 36"
+                )
+            try:
+                v = int(match.group(2), base=base)
+            except ValueError as e:
+                raise ctx.syntax_error(f"Invalid number format: {s}") from e
+            else:
+                return -v if neg else v
+        elif (match := complex_literal.fullmatch(s)) is not None:
+            imaginary_raw = match.group(1)
+            imaginary = (
+                float(imaginary_raw) if "." in imaginary_raw else int(imaginary_raw)
+            )
+            return complex(0, -imaginary if neg else imaginary)
+    except (ValueError, ArithmeticError) as e:
+        # e.g. integers beyond the interpreter's digit limit, out-of-range Decimal exponents
+        raise ctx.syntax_error(f"Invalid number format: {s}") from e
     raise ctx.syntax_error(f"Invalid number format: {s}")
 
 
@@ -967,7 +976,12 @@ def _read_unicode_escape_seq(ctx: ReaderContext) -> str:
             f"Unicode escape sequence must be exactly 4 or 8 hex digits; got '{unicode_hex}'"
         )
 
-    return chr(int(unicode_hex, base=16))
+    try:
+        return chr(int(unicode_hex, base=16))
+    except (ValueError, OverflowError) as e:
+        raise ctx.syntax_error(
+            f"Unicode escape sequence '{unicode_hex}' is not a valid code point"
+        ) from e
 
 
 def _read_str(ctx: ReaderContext, raw_string: bool = False) -> str:
